@@ -169,6 +169,13 @@ func main() {
 		}
 		shared++
 		roots, refs := cm.Parse(append([]byte(nil), d...))
+		// history: traversals that were cut short (Post returns false; Pre prunes) before the concurrent phase - whatever
+		// a traversal keeps for later use (pools, caches) must not couple the traversals that follow
+		for _, rb := range roots {
+			k := 0
+			cm.Walk(rb.AsNode(), &cm.WalkOptions{Pre: func(c *cm.Cursor) bool { return true }, Post: func(c *cm.Cursor) bool { k++; return k < 2 }})
+			cm.Walk(rb.AsNode(), &cm.WalkOptions{Pre: func(c *cm.Cursor) bool { return false }})
+		}
 		wantR := make([][]byte, len(cfgs))
 		for i, c := range cfgs {
 			wantR[i] = renderWith(c, roots, refs)
@@ -216,17 +223,24 @@ func main() {
 		}
 		wg.Wait()
 		// one renderer shared by several goroutines (the renderer's configuration is read-only)
-		rd := &cm.HTMLRenderer{ReferenceMap: refs, FilterTag: cm.FilterTagGFM}
-		var wg2 sync.WaitGroup
-		for w := 0; w < 4; w++ {
-			wg2.Add(1)
-			go func() {
-				defer wg2.Done()
-				var b bytes.Buffer
-				rd.Render(&b, roots)
-			}()
+		for _, rd := range []*cm.HTMLRenderer{{ReferenceMap: refs, FilterTag: cm.FilterTagGFM}, {ReferenceMap: refs}} {
+			rd := rd
+			var wg2 sync.WaitGroup
+			for w := 0; w < 4; w++ {
+				wg2.Add(1)
+				go func() {
+					defer wg2.Done()
+					var b bytes.Buffer
+					rd.Render(&b, roots)
+					if !bytes.Equal(b.Bytes(), renderWith(cfg{f: rd.FilterTag}, roots, refs)) {
+						mu.Lock()
+						fail("Render through a renderer shared by several goroutines differs for document %d", di)
+						mu.Unlock()
+					}
+				}()
+			}
+			wg2.Wait()
 		}
-		wg2.Wait()
 	}
 	fmt.Printf("RACER documents=%d shared_trees=%d workers=%d configs=%d mismatches=%d\n", len(docs), shared, *workers, len(cfgs), failures)
 	if failures > 0 {
